@@ -96,3 +96,49 @@ func OkNonNilArgs() int {
 	t := s.clone(&S{})
 	return r.v + q.v + t.v
 }
+
+var sentinel S
+
+// F42: differing from a non-nil value does not make p nil; no contract may be inferred for norm
+func norm(p *S) *S {
+	if p != &sentinel {
+		return nil
+	}
+	return p
+}
+
+// BadF42 dereferences norm(non-nil), which is nil.
+func BadF42() int {
+	r := norm(&S{})
+	return r.v
+}
+
+// F43: append(t, s...) is nil for a nil t and an empty s; no contract may be inferred for dup
+func dup(s []*S) []*S {
+	if s == nil {
+		return nil
+	}
+	var t []*S
+	return append(t, s...)
+}
+
+// BadF43 indexes dup(non-nil empty), which is nil.
+func BadF43() *S {
+	r := dup([]*S{})
+	return r[0]
+}
+
+// contracted: append with explicit elements is never nil
+func withElem(s []*S) []*S {
+	if s == nil {
+		return nil
+	}
+	var t []*S
+	return append(t, &S{})
+}
+
+// OkAppendElems relies on the contract of withElem.
+func OkAppendElems() *S {
+	r := withElem([]*S{})
+	return r[0]
+}
